@@ -218,11 +218,19 @@ LEVEL_TEXT = (
     "Theorems C11_* (Props/C11.v) prove for the model of ForestRuleExtractor._minimize, instantiated with the "
     "table-method productivity test whose meaning is given by C03: the extracted keys are inserted keys of the "
     "pumping sub-universe; the start class pumps w.r.t. the extracted keys alone; removing any single extracted key "
-    "makes it stop pumping (minimal); no REVERSE key is used when the other buckets suffice; and if the self-check "
-    "passes, left-hand sides are pairwise distinct. The model is tied to forest.py by comparing needed_rules as a list."
+    "makes it stop pumping (minimal); no REVERSE key is used when the other buckets suffice; and the extracted keys "
+    "have pairwise distinct left-hand sides (C11_one_rule_per_class: the assertion in check() cannot fail). The last "
+    "one follows from C11_minimal_one_rule_per_class, proved for ANY key list (Forest/Positional.v, memoryless "
+    "determinacy of the derivability game: of two keys for one class one is redundant, C11_positional). "
+    "The model is tied to forest.py by comparing needed_rules as a list."
 )
 LEVEL_NOTE = (
-    "Not proved: that a minimal productive set is closed and has one rule per class (C11_one_rule_per_class_partial "
-    "only states it under the code's own check()); both are decided per instance by the oracle. _find_rule is "
+    "C11_one_rule_per_class, C11_minimal_one_rule_per_class and C11_positional use the standard-library axiom "
+    "Classical_Prop.classic, only to compare the (possibly infinite) number of terms of one class in two key lists; "
+    "the core (Positional.split_derivable) is axiom free, and so are C11_minimal_one_rule_per_class_valued and "
+    "C11_one_rule_per_class_runs, which take that comparison as a hypothesis (a terminating table-method run on the "
+    "result with one key removed; termination of the table method would discharge it). C11_closed still takes the "
+    "table-method run of check() as a hypothesis. C11_one_rule_per_class_partial (soundness of the code's own "
+    "check()) is kept. Closedness and one-rule-per-class are also decided per instance by the oracle. _find_rule is "
     "exercised on real searches only. Partial correctness (fuel)."
 )
